@@ -195,6 +195,14 @@ func validateEncryptedPayload(encryptedInnerData []byte) error {
 		return oops.Code("empty_encrypted_data").
 			Errorf("encrypted inner data cannot be empty")
 	}
+	// The wire format carries the inner length in 16 bits; a longer payload would be emitted with
+	// a truncated length field and could not be parsed back.
+	if len(encryptedInnerData) > 65535 {
+		return oops.Code("encrypted_data_too_long").
+			With("size", len(encryptedInnerData)).
+			Errorf("encrypted inner data size %d exceeds the 16-bit length field (max 65535)",
+				len(encryptedInnerData))
+	}
 	if len(encryptedInnerData) < ENCRYPTED_LEASESET_MIN_ENCRYPTED_SIZE {
 		return oops.Code("encrypted_data_too_short").
 			With("size", len(encryptedInnerData)).
